@@ -32,6 +32,7 @@ def ws():
 
 
 class _Ambient:
+    hop_budget = 0
     on = False
     rng = None
     dims = ()
@@ -59,6 +60,7 @@ class ambient:
         AMB.dims = self.dims
         AMB.counts = {}
         AMB.last = None
+        AMB.hop_budget = 2500
         import warnings
         AMB.saved_filters = warnings.filters[:]
         return self
@@ -94,11 +96,14 @@ def _draw_ambient():
         # the application runs with warnings turned into errors (python -W error, a test runner's filterwarnings=error)
         "warn_error": ("warn_error" in AMB.dims and r.random() < 0.2),
         # every API call of the connection is made by another (fresh) thread, one after the other (a thread pool / run_in_executor)
-        "thread_hop": ("thread_hop" in AMB.dims and r.random() < 0.04),
+        "thread_hop": ("thread_hop" in AMB.dims and r.random() < 0.04 and AMB.hop_budget > 0),
         # boolean options spelled 1 / 0 instead of True / False
         "truthy": ("truthy" in AMB.dims and r.random() < 0.2),
     }
     AMB.last = a
+    if a["thread_hop"]:
+        # real threads are slow under the baton scheduler (milliseconds per call): a bounded number of connections per batch
+        AMB.hop_budget -= 1
     for k, v in a.items():
         if v:
             AMB.counts[k] = AMB.counts.get(k, 0) + 1
